@@ -122,6 +122,8 @@ def move_tags(m, in_obs=None):
     if v == "alias":
         tags.add("alias:keep" if m.get("keep") else "alias:plain")
     if in_obs is not None:
+        if any(p not in in_obs["ids"] for p in in_obs.get("pids", [])):
+            tags.add("in:hidden-group")
         if in_obs["part"]:
             tags.add("in:grouped")
         if not in_obs["rows"]:
